@@ -26,7 +26,7 @@ def run(ctx):
     ctx.rule('R13.2', 'Line.radialrange: the closed-form t is the critical point of |p0 + t d - z|^2; decision table = clamp / farther end', 1)
     ctx.rule('R13.3', 'Path.radialrange: arg-min / arg-max fold is correct on every weak ordering of three segments (values touched only through '
                       'comparisons) and appends the index of the same iteration', 1)
-    ctx.rule('R13.4', 'closest_point_in_path -> radialrange(pt)[0]; farthest_point_in_path -> radialrange(pt)[1]; on concrete rational paths both return the global extremum with its segment index, for every segment order', 8)
+    ctx.rule('R13.4', 'closest_point_in_path -> radialrange(pt)[0]; farthest_point_in_path -> radialrange(pt)[1]; on concrete rational paths both return the global extremum with its segment index, for every segment order', 12)
     ob = lambda r: Obligation(ctx, r)
 
     # ---------------------------------------------------------------- R13.1
@@ -206,14 +206,17 @@ def _closest_farthest_semantics(ctx, mdl):
         return min(lo), max(cands)
 
     # rigid images of the one configuration (all distances stay rational): as is, translated, mirrored in the diagonal, point-reflected
-    images = [('as is', lambda p: p), ('translated', lambda p: (p[0] + 10, p[1] - 7)), ('x/y swapped', lambda p: (p[1], p[0])),
-              ('point-reflected', lambda p: (-p[0], -p[1]))]
+    images = [('as is', lambda p: p, False), ('translated', lambda p: (p[0] + 10, p[1] - 7), False), ('x/y swapped', lambda p: (p[1], p[0]), False),
+              ('point-reflected', lambda p: (-p[0], -p[1]), False),
+              # every segment traversed the other way: the extrema now sit at STARTS of segments (the lines do not join, so a start
+              # is not the end of the segment before it)
+              ('segments reversed', lambda p: p, True), ('segments reversed, translated', lambda p: (p[0] - 4, p[1] + 9), True)]
     base = geo
     for fn, slot in (('closest_point_in_path', 0), ('farthest_point_in_path', 1)):
         f = mdl.func('path.' + fn)
-        for iname, img in images:
+        for iname, img, rev in images:
             z = img((Fr(0), Fr(0)))
-            geo = [(img(a), img(b)) for a, b in base]
+            geo = [((img(b), img(a)) if rev else (img(a), img(b))) for a, b in base]
             bad = []
             und = None
             for order in itertools.permutations(range(3)):
